@@ -6,11 +6,11 @@ open TemplVerif TemplVerif.Drive TemplVerif.Buf
 def isPrefix (a b : Bytes) : Bool := List.isPrefixOf a b
 
 def handle : List String → Verdict
-  | ["buf", capS, limS, zeroS, swS, opsS, gotH, resS] =>
+  | ["buf", capS, limS, zeroS, swS, silentS, opsS, gotH, resS] =>
     match capS.toNat?, hexField gotH with
     | some capN, some got =>
       let limit := if limS == "-" then none else limS.toNat?
-      let u : Under := { limit := limit, zeroWrite := zeroS == "true", stringWriter := swS == "true" }
+      let u : Under := { limit := limit, zeroWrite := zeroS == "true", stringWriter := swS == "true", silent := silentS == "true" }
       let ops := opsS.splitOn ","
       let step := fun (acc : BW × List String × Bytes) (op : String) =>
         let (b, res, doc) := acc
@@ -34,7 +34,7 @@ def handle : List String → Verdict
           else if (match limit with | some k => k < doc.length | none => false) && !anyErr then some "writer failed but no operation reported an error"
           else none,
         nontrivial := limit.isSome && doc.length > capN,
-        tags := [s!"cap{capN}", if swS == "true" then "stringwriter" else "plainwriter", if zeroS == "true" then "zero-write" else "short-write"],
+        tags := [s!"cap{capN}", if swS == "true" then "stringwriter" else "plainwriter", if zeroS == "true" then "zero-write" else "short-write"] ++ (if silentS == "true" then ["silent-writer"] else []),
         sig := "buf" }
     | _, _ => .badOp
   | ["render", comp, limS, zeroS, docH, gotH, errKind, errLine, wantLines] =>
